@@ -366,3 +366,73 @@ func registerJSONSchema(p *Program) {
 		return e.jvalid(ms, schemaCtx{doc: ms.swagger}, node, v, 0), true
 	}
 }
+
+// showJ renders an abstract JSON value for debugging notes (guards abbreviated).
+func showJ(v JVal) string {
+	showS := func(s Str) string {
+		if s.Concrete() {
+			return fmt.Sprintf("%q", s.S)
+		}
+		if s.Op != nil {
+			return "<ostr>"
+		}
+		return fmt.Sprintf("<sym:%d>", s.Len())
+	}
+	switch x := v.(type) {
+	case nil:
+		return "<nil>"
+	case JNull:
+		return "null"
+	case JBool:
+		if x.B.IsConst() {
+			return fmt.Sprint(x.B.Val == 1)
+		}
+		return "<bool>"
+	case JNum:
+		if x.I != nil && x.I.IsConst() {
+			return fmt.Sprint(int64(x.I.Val))
+		}
+		k := "<num:"
+		if x.I != nil {
+			k += "I"
+		}
+		if x.F != nil {
+			k += "F"
+		}
+		return k + ">"
+	case JStr:
+		return showS(x.S)
+	case *JArr:
+		var parts []string
+		for _, el := range x.E {
+			parts = append(parts, showJ(el))
+		}
+		return "[" + strings.Join(parts, ",") + "]"
+	case *JObj:
+		var parts []string
+		for _, m := range x.M {
+			g := ""
+			if m.G != nil {
+				if m.G.IsFalse() {
+					continue
+				}
+				g = "?"
+			}
+			parts = append(parts, showS(m.K)+g+":"+showJ(m.V))
+		}
+		return "{" + strings.Join(parts, ",") + "}"
+	case JBad:
+		return "<bad:" + x.Why + ">"
+	}
+	return fmt.Sprintf("<%T>", v)
+}
+
+func registerJDump(p *Program) {
+	{
+		// vJDump(doc []byte, label string): a note showing the abstract JSON value (debugging aid)
+		p.intrinsics[specPkg+"vJDump"] = func(e *Exec, _ *frame, _ *ssa.Function, a []Value) (Value, bool) {
+			e.notes = append(e.notes, e.cstr(a[1])+"="+showJ(e.textValue(a[0].(Slice))))
+			return nil, true
+		}
+	}
+}
